@@ -27,6 +27,12 @@ CHECKS.update({
     'C12': dict(engine='calc', technique=T + '; rejection paths observed on the real code', design='§7 C12',
                 text='EnsembleCondition over tuples of 1..4 closed-form sub-conditions: every traced column equals the sub-condition traced alone on that output; NoCondition is the identity for input widths 1..4 and output widths 1..4; ith_unit variants of all C01 conditions equal the condition on that single output (no other column occurs). Width mismatch / overridden-enforce rejection checked at run time on the real code.'),
 })
+TB = 'Lean 4 theorems (induction over call/operation sequences) about a hand-written executable model; model tied to the code by a line-protocol correspondence check on every run'
+CHECKS.update({
+    'C14': dict(engine='state', technique=TB, design='§7 C14',
+                text='Model of BatchGenerator (per-dimension caches, refill loop with fuel, slice, drop). Proved for every source, batch size and number of calls: batches concatenated ++ cache = draws concatenated, in every dimension with the same cut points (no loss, duplication, reordering; rows stay paired); every batch has exactly batch_size entries when draws are non-empty (termination hypothesis). Correspondence: real BatchGenerator on spy leaves vs the model on the recorded draws, exact comparison.',
+                note='Hypothesis of the size theorem: the underlying generator keeps producing non-empty draws (otherwise the real while-loop diverges).'),
+})
 NOT_YET = {}
 
 def main():
